@@ -556,7 +556,7 @@ def panic_census(ctx, facts, cfg):
             if fn.kind == 'Closure' and fn.closure_parent:
                 host = fn.closure_parent
             hf = facts.fns.get(host) or fn
-            if (hf.impl_self_adt or '').startswith('rate::rate_default::DefaultRate'):
+            if (hf.impl_self_adt or '').startswith('rate::rate_default::'):
                 cat = 'placeholder variant of the default-rate inner codec'
             elif host in reset_roles or (facts.fns.get(host) is not None and host in {q for r in reset_roles for q in getattr(core.inlined_fn(facts, r, core.self_helper(facts.fns[r].impl_self_adt)), 'inlined', [])}):
                 cat = 'shard-size assert of the work reset'
